@@ -3,6 +3,7 @@ from .pdb import strip, walk, loc, ancestors
 from .terms import Ctx, num, show, lin_add, lin_sub
 from .common import (P, F, LEN, effects, callee_path, call_args, in_macro, forwards_to, is_zero_term, OP_OF_TRAIT, _reaching_values)
 from .guards import facts, cond_atoms, norm_cmp
+from .common import value_before
 from .guards import for_range as raw_for_range
 from .common import for_range_total as for_range
 
@@ -15,7 +16,27 @@ DEG0, DEG1 = lin_add(LEN(CO0), num(-1)), lin_add(LEN(CO1), num(-1))
 def empty_returns(pdb, ctx, fn):
     """{which operand is empty (0/1): term returned} for `match X.degree() { Ok(d) => d, Err(_) => return E }`."""
     out = {}
+    from .guards import diverges
     for n in walk(fn["body"]):
+        if n.get("k") == "Match" and len(n.get("arms", [])) >= 2:
+            sc = strip(n["scrut"])
+            # `match (a.degree(), b.degree()) { (Ok(x), Ok(y)) => .., _ => return E }`: either operand empty -> E
+            if sc.get("k") == "Tup" and all(strip(x).get("k") == "MethodCall" and callee_path(strip(x)) == "%s::degree" % PT for x in sc["es"]):
+                live = [a for a in n["arms"] if not diverges(a["body"])]
+                dead = [a for a in n["arms"] if diverges(a["body"])]
+                okpat = len(live) == 1 and live[0]["pat"].get("k") == "Tuple" and all(
+                    q.get("k") in ("TupleStruct", "Struct") and str(q.get("path", "")).endswith("Ok") for q in live[0]["pat"].get("ps", []))
+                if okpat and dead:
+                    vals = set()
+                    for arm in dead:
+                        rets = [x for x in walk(arm["body"]) if x.get("k") == "Ret"]
+                        vals.add(ctx.term(rets[0]["e"]) if len(rets) == 1 and rets[0].get("e") is not None else None)
+                    if len(vals) == 1 and None not in vals:
+                        for x in sc["es"]:
+                            who = ctx.term(strip(x)["recv"])
+                            if who in (P(0), P(1)):
+                                out[who[1]] = list(vals)[0]
+                continue
         if n.get("k") == "Match" and len(n.get("arms", [])) == 2:
             sc = strip(n["scrut"])
             if sc.get("k") == "MethodCall" and callee_path(sc) == "%s::degree" % PT:
@@ -25,6 +46,20 @@ def empty_returns(pdb, ctx, fn):
                     if rets and who in (P(0), P(1)):
                         out[who[1]] = ctx.term(rets[0]["e"])
     return out
+
+
+def quantifier_form(ctx, fn, t):
+    """('not-any' | 'all', V, (closure param var, closure body term)) for `!V.iter().any(cl)` / `V.iter().all(cl)`."""
+    neg = False
+    if t[0] == "not":
+        neg, t = True, t[1]
+    if t[0] == "call" and len(t) == 4 and t[2][0] == "call" and str(t[2][1]).endswith("::iter") and t[3][0] == "closure":
+        nm = str(t[1]).split("::")[-1]
+        if (nm == "any" and neg) or (nm == "all" and not neg):
+            for n in walk(fn["body"]):
+                if n.get("k") == "Closure" and n.get("id") == t[3][1] and len(n["params"]) == 1 and n["params"][0].get("k") == "Bind":
+                    return ("not-any" if nm == "any" else "all"), t[2][2], (("var", n["params"][0]["v"]), ctx.term(n["body"]))
+    return None
 
 
 def closure_of_map(ctx, t, fn):
@@ -76,11 +111,15 @@ def run(rep, pdb, tier):
             dvar = r[2]
             okl = len(alloc) == 1 and alloc[0].value[0] == "call" and str(alloc[0].value[1]).endswith("from_elem") and is_zero_term(alloc[0].value[2]) and \
                 alloc[0].value[3] == lin_add(dvar, num(1)) and r[1] == num(0) and r[3] and not r[4]
-            vals = set(_reaching_values(ctx, dvar, at=alloc[0].node)) if dvar[0] == "var" and alloc else set()
-            ismax = vals == {DEG0, DEG1}
-            # the replacement is guarded by degree < other degree
-            asg = [x for x in ctx.assigns.get(dvar[1], [])] if dvar[0] == "var" else []
-            gmax = len(asg) == 1 and any(f[0] == "cmp" and f[1] == "<" and f[2] == dvar and f[3] == DEG1 for f in facts(ctx, asg[0]))
+            if dvar[0] == "call" and str(dvar[1]).endswith("::max") and len(dvar) == 4:
+                # `let degree = if a < b { b } else { a }` / max(a, b): the maximum as an expression
+                ismax = gmax = {dvar[2], dvar[3]} == {DEG0, DEG1}
+            else:
+                vals = set(_reaching_values(ctx, dvar, at=alloc[0].node)) if dvar[0] == "var" and alloc else set()
+                ismax = vals == {DEG0, DEG1}
+                # the replacement is guarded by degree < other degree
+                asg = [x for x in ctx.assigns.get(dvar[1], [])] if dvar[0] == "var" else []
+                gmax = len(asg) == 1 and any(f[0] == "cmp" and f[1] == "<" and f[2] == dvar and f[3] == DEG1 for f in facts(ctx, asg[0]))
             rep.add("length/%s" % tr, "the result has max(deg, deg')+1 coefficients (zeros), the loop covers 0..=that degree, and each operand contributes only for i <= its own degree",
                     okl and ismax and gmax and ga and gb, alloc[0].node if alloc else fn["body"],
                     "alloc degree+1 zeros & loop 0..=degree=%s degree is max of both=%s guards i<=own degree=%s/%s" % (okl, ismax and gmax, ga, gb))
@@ -123,15 +162,25 @@ def run(rep, pdb, tier):
             idx = lin_add(i, j)
             okv = e.index == idx and e.value == ("op", "+", ("idx", tgt, idx), ("op", "*", ("idx", CO0, i), ("idx", CO1, j)))
             okr = ri[1:5] == (num(0), DEG0, True, False) and rj[1:5] == (num(0), DEG1, True, False)
-            alloc = [x for x in effs if x.kind == "assign" and x.target == tgt]
-            okl = len(alloc) == 1 and alloc[0].value[0] == "call" and str(alloc[0].value[1]).endswith("from_elem") and is_zero_term(alloc[0].value[2])
+            alloc = [x.value for x in effs if x.kind == "assign" and x.target == tgt]
+            anode = [x.node for x in effs if x.kind == "assign" and x.target == tgt]
+            if not alloc and tgt[0] == "field" and tgt[1][0] == "var":
+                # `let mut product = Polynomial::new(vec![zero; n])`
+                pv = value_before(ctx, tgt[1], e.loops[0])
+                if pv is not None and pv[0] == "call" and str(pv[1]) == "%s::new" % PT and len(pv) == 3:
+                    alloc = [pv[2]]
+                    anode = [ctx.binds[tgt[1][1]].node]
+            okl = len(alloc) == 1 and alloc[0][0] == "call" and str(alloc[0][1]).endswith("from_elem") and is_zero_term(alloc[0][2])
             if okl:
-                dv = alloc[0].value[3]
-                # degree = deg self, then += deg rhs
-                d = lin_add(dv, num(-1))
-                vals = _reaching_values(ctx, d, at=alloc[0].node) if d[0] == "var" else []
-                incs = [a for a in ctx.assigns.get(d[1], [])] if d[0] == "var" else []
-                okl = vals[:1] == [DEG0] and len(incs) == 1 and incs[0].get("k") == "AssignOp" and incs[0]["op"] == "+=" and ctx.term(incs[0]["r"]) == DEG1
+                dv = alloc[0][3]
+                if dv == lin_add(lin_add(DEG0, DEG1), num(1)):
+                    okl = True          # deg + deg' + 1 as an expression
+                else:
+                    # degree = deg self, then += deg rhs
+                    d = lin_add(dv, num(-1))
+                    vals = _reaching_values(ctx, d, at=anode[0]) if d[0] == "var" else []
+                    incs = [a for a in ctx.assigns.get(d[1], [])] if d[0] == "var" else []
+                    okl = vals[:1] == [DEG0] and len(incs) == 1 and incs[0].get("k") == "AssignOp" and incs[0]["op"] == "+=" and ctx.term(incs[0]["r"]) == DEG1
             ok = okv and okr and okl and empt
             det = "product[i+j] += self[i]*rhs[j]=%s both loops 0..=own degree=%s length deg+deg'+1=%s empty factor gives empty product=%s" % (okv, okr, okl, empt)
         rep.add("graded-product", "the accumulator index is the sum of the two coefficient indices; both loops cover 0..=deg of their own operand; the result has deg+deg'+1 zeros; an empty factor gives the empty product",
@@ -172,11 +221,19 @@ def run(rep, pdb, tier):
             tgt = e.target
             src = lin_add(i, num(1))
             cnt = lin_add(lin_sub(ri[2], ri[1]), num(1 if ri[3] else 0))
-            alloc = [x for x in effs if x.kind == "assign" and x.target == tgt]
-            okl = len(alloc) == 1 and alloc[0].value[0] == "call" and str(alloc[0].value[1]).endswith("from_elem") and is_zero_term(alloc[0].value[2]) and alloc[0].value[3] == DEG0
-            ok = e.index == i and e.value == ("op", "+", ("idx", tgt, i), ("idx", CO0, src)) and ro[1:5] == (num(0), DEG0, False, False) and cnt == src and okl
+            # the coefficient vector being filled: the coeffs field of a fresh polynomial, or a local vector wrapped by new()
+            if tgt[0] == "field":
+                alloc = [x.value for x in effs if x.kind == "assign" and x.target == tgt]
+                result = tgt[1]
+            else:
+                v0 = value_before(ctx, tgt, e.loops[0])
+                alloc = [v0] if v0 is not None else []
+                result = ("call", "%s::new" % PT, tgt)
+            okl = len(alloc) == 1 and alloc[0][0] == "call" and str(alloc[0][1]).endswith("from_elem") and is_zero_term(alloc[0][2]) and alloc[0][3] == DEG0
+            hi_ok = ro[2] == DEG0 or (tgt[0] == "var" and ro[2] == LEN(tgt) and okl)        # 0..degree, or over the whole vector of `degree` zeros
+            ok = e.index == i and e.value == ("op", "+", ("idx", tgt, i), ("idx", CO0, src)) and (ro[1], ro[3], ro[4]) == (num(0), False, False) and hi_ok and cnt == src and okl
             tail = fn["body"].get("expr")
-            ok = ok and tail is not None and ctx.term(tail) == tgt[1]
+            ok = ok and tail is not None and ctx.term(tail) == result
         rep.add("derivative", rule, ok, fn["body"], "", where=loc(fn["body"]))
     fn = pdb.fn("%s::derivative_n" % PT)
     rule = "derivative_n applies derivative exactly n times to a clone of self"
@@ -238,7 +295,16 @@ def run(rep, pdb, tier):
         ctx = Ctx.for_fn(pdb, fn)
         rets = [n for n in walk(fn["body"]) if n.get("k") == "Ret"]
         ok = len(rets) == 1 and ctx.term(rets[0]["e"]) == ("bool", False)
-        if ok:
+        tl = fn["body"].get("expr")
+        tt = ctx.term(tl) if tl is not None else None
+        quant = quantifier_form(ctx, fn, tt) if tt is not None and not rets else None
+        if quant is not None:
+            # `!coeffs.iter().any(|c| *c != zero)`  /  `coeffs.iter().all(|c| *c == zero)`: the same predicate, over all of coeffs
+            kind, src, (cv, body) = quant
+            zero = ("call", "traits::Zero::zero")
+            want_op = "!=" if kind == "not-any" else "=="
+            ok = src == CO0 and body[0] == "op" and body[1] == want_op and {body[2], body[3]} == {cv, zero}
+        elif ok:
             lp = [a for a in ancestors(rets[0]) if a.get("k") == "For"]
             r = raw_for_range(ctx, lp[0]) if len(lp) == 1 else None
             fs = facts(ctx, rets[0])
